@@ -512,3 +512,62 @@ fn finish(r: Option<tiny_http_rt::Request>) -> (Option<u64>, u64, Option<tiny_ht
         None => (None, t1, None),
     }
 }
+
+/// C20 (`backlog`): the server is dropped while requests that the application never received
+/// are still queued — one client pipelining many requests, or many connections with one or two
+/// each — and a few that it did receive are answered afterwards.  Then the clients go away and
+/// more than the idle period passes: no thread of the server is left.
+pub fn run_backlog(id: usize, rng: &mut Rng) -> String {
+    let cfg = Config { seed: rng.next(), p_timer: *rng.pick(&[0u64, 0, 30]), p_preempt: *rng.pick(&[0u64, 0, 100]), max_steps: 2_000_000, ..Config::default() };
+    let conns = *rng.pick(&[1usize, 1, 2, 6, 12, 20]);
+    let per = if conns <= 2 { rng.range(9, 30) } else { rng.range(1, 3) };
+    let take = *rng.pick(&[0usize, 0, 1, 3]);
+    let ((queued, answered, taken, base, after_drop, after), rep) = sched::run(&cfg, move || {
+        let live = || sched::threads().iter().filter(|(n, st)| (n.starts_with("task_pool.rs") || n.starts_with("lib.rs")) && !matches!(st, TState::Finished)).count();
+        let base = live();
+        let server = Server::http("127.0.0.1:0").expect("server");
+        let addr = server.server_addr().to_ip().unwrap();
+        let mut clients = vec![];
+        let mut queued = 0usize;
+        for c in 0..conns {
+            if let Ok(s) = verif_rt::net::TcpStream::connect(addr) {
+                for k in 0..per {
+                    let mut w = &s;
+                    let _ = w.write(format!("GET /r{} HTTP/1.1\r\nHost: x\r\n\r\n", c * 100 + k).as_bytes());
+                    queued += 1;
+                }
+                clients.push(s);
+            }
+        }
+        sched::settle(2_000_000_000);
+        // a few requests are handed to the application before the drop
+        let mut held = vec![];
+        for _ in 0..take {
+            if let Ok(Some(rq)) = server.try_recv() {
+                held.push(rq);
+            }
+        }
+        let taken = held.len();
+        sched::settle(1_000_000_000);
+        drop(server);
+        sched::settle(1_000_000_000);
+        let after_drop = live();
+        // requests already handed out can still be answered
+        let mut answered = 0usize;
+        for rq in held {
+            if rq.respond(Response::from_string("late")).is_ok() {
+                answered += 1;
+            }
+        }
+        sched::settle(1_000_000_000);
+        drop(clients);
+        // more than the idle period (5 s), twice
+        sched::settle(11_000_000_000);
+        let after = live();
+        (queued, answered, taken, base, after_drop, after)
+    });
+    format!(
+        "srv id={} kind=backlog conns={} n={} taken={} answered={} base={} after_drop={} after={} aborted={} clock={}",
+        id, conns, queued, taken, answered, base, after_drop, after, if rep.aborted { 1 } else { 0 }, rep.clock
+    )
+}
